@@ -26,6 +26,13 @@ pub fn set_next_image(d: Vec<u8>, e: u64) {
         *core::ptr::addr_of_mut!(NEXT_IMAGE) = Some((d, e));
     }
 }
+/// mode of the next buffer created through `BufFile::new/with_capacity/with_per_mille`
+pub static mut NEXT_BULK: bool = false;
+pub fn set_next_bulk(b: bool) {
+    unsafe {
+        *core::ptr::addr_of_mut!(NEXT_BULK) = b;
+    }
+}
 /// global event counter so that harnesses can order events of different files
 pub static mut CLOCK: u32 = 0;
 fn tick() -> u32 {
@@ -61,6 +68,9 @@ pub struct RaBuf<T> {
     pub ro: bool,
     /// the next flush fails (models ENOSPC / EFBIG during write-back)
     pub fail_flush: bool,
+    /// bulk mode: multi-byte copies and zero fills use memcpy/memset instead of byte loops
+    /// (loop-free for CBMC; contents become opaque to its constant propagation)
+    pub bulk: bool,
 }
 
 #[inline]
@@ -92,12 +102,14 @@ impl BufFile {
             asked_chunks: 0,
             ro: false,
             fail_flush: false,
+            bulk: false,
         }
     }
     fn take_next(file: File) -> Self {
         let (d, e) = unsafe { (*core::ptr::addr_of_mut!(NEXT_IMAGE)).take().unwrap() };
         let mut b = Self::from_image(d, e);
         b._file = Some(file);
+        b.bulk = unsafe { *core::ptr::addr_of!(NEXT_BULK) };
         b
     }
     pub fn new(_name: &str, file: File) -> Result<Self> {
@@ -150,6 +162,33 @@ impl BufFile {
 }
 
 #[inline]
+fn put_bytes_m(bulk: bool, data: &mut [u8], p: usize, src: &[u8]) {
+    if bulk {
+        data[p..p + src.len()].copy_from_slice(src);
+    } else {
+        put_bytes(data, p, src);
+    }
+}
+#[inline]
+fn get_bytes_m(bulk: bool, data: &[u8], p: usize, dst: &mut [u8]) {
+    if bulk {
+        let n = dst.len();
+        dst.copy_from_slice(&data[p..p + n]);
+    } else {
+        get_bytes(data, p, dst);
+    }
+}
+#[inline]
+fn zero_bytes_m(bulk: bool, data: &mut [u8], a: usize, b: usize) {
+    if bulk {
+        if a < b {
+            data[a..b].fill(0);
+        }
+    } else {
+        zero_bytes(data, a, b);
+    }
+}
+#[inline]
 fn put_bytes(data: &mut [u8], p: usize, src: &[u8]) {
     let mut i = 0;
     while i < src.len() {
@@ -194,7 +233,7 @@ impl FileSetLen for BufFile {
         cut(size as usize <= self.data.len());
         // bytes between old and new end read as zero (sparse extension / truncation)
         let (a, b) = if size > self.end { (self.end as usize, size as usize) } else { (size as usize, self.end as usize) };
-        zero_bytes(&mut self.data, a, b);
+        zero_bytes_m(self.bulk, &mut self.data, a, b);
         self.end = size;
         if self.end < self.pos {
             self.pos = self.end;
@@ -261,7 +300,7 @@ impl<T> Read for RaBuf<T> {
         if (p + n) as u64 > self.end {
             self.n_read_past_end += 1;
         }
-        get_bytes(&self.data, p, buf);
+        get_bytes_m(self.bulk, &self.data, p, buf);
         self.pos += n as u64;
         Ok(n)
     }
@@ -272,7 +311,7 @@ impl<T> Write for RaBuf<T> {
         let n = buf.len();
         let p = self.pos as usize;
         cut(p + n <= self.data.len());
-        put_bytes(&mut self.data, p, buf);
+        put_bytes_m(self.bulk, &mut self.data, p, buf);
         self.pos += n as u64;
         if self.end < self.pos {
             self.end = self.pos;
@@ -339,7 +378,7 @@ impl SmallRead for BufFile {
     fn read_exact_small(&mut self, buf: &mut [u8]) -> Result<()> {
         let n = buf.len();
         let p = self.rd(n);
-        get_bytes(&self.data, p, buf);
+        get_bytes_m(self.bulk, &self.data, p, buf);
         Ok(())
     }
     fn read_exact_maybeslice(&mut self, size: usize) -> Result<MaybeSlice<'_>> {
@@ -398,13 +437,13 @@ impl SmallWrite for BufFile {
     fn write_all_small(&mut self, buf: &[u8]) -> Result<()> {
         let n = buf.len();
         let p = self.wr(n);
-        put_bytes(&mut self.data, p, buf);
+        put_bytes_m(self.bulk, &mut self.data, p, buf);
         Ok(())
     }
     fn write_zero(&mut self, size: u32) -> Result<()> {
         let n = size as usize;
         let p = self.wr(n);
-        zero_bytes(&mut self.data, p, p + n);
+        zero_bytes_m(self.bulk, &mut self.data, p, p + n);
         Ok(())
     }
 }
